@@ -9,7 +9,8 @@ TB = ("Trusted: Coq 8.16.1 kernel (coqc; coqchk -o in the thorough tier), no nat
       "not verified.  See DESIGN.md section 3.")
 
 CHECKS = {
-    "C12": ("Theorems for every string of code points and every configuration (all integer thresholds): whole-sequence verdict = "
+    "C12": ("(LocalBioFilter.__init__ and valid() are REGENERATED from the current source on every run as terms of a deep embedding "
+            "with binary64 floats and proved equal to the model: C12_valid_source.)  Theorems for every string of code points and every configuration (all integer thresholds): whole-sequence verdict = "
             "documented window predicate; last-window verdict = verdict of the final window; for window-decidable configurations "
             "and strings at least one window long the verdict is the conjunction over all windows; reverse-complement invariance "
             "(ACGT motifs); constructor validation.  The float thresholds are reduced to integers outside Coq (same binary64 "
@@ -20,7 +21,8 @@ CHECKS = {
             "arithmetic is regenerated from the current source on every run and re-proved equal to the model; tied to dsw by running the "
             "extracted model and the implementation on every vertex of every order up to 5 (7 thorough) plus samples to k = 12.",
             "Coq proof (induction on k-mers, Z arithmetic) + extraction-based correspondence check", "5 C13"),
-    "C01": ("Theorems: on every accessor that is well formed from the start vertex (any arc subset, out-degrees 1..4 mixed), for "
+    "C01": ("(encode, decode, set_vt and the number conversions are REGENERATED from the current source on every run as terms of a "
+            "deep embedding of Python + NumPy arrays and proved equal to the model, value and exception: C01_*_source.)  Theorems: on every accessor that is well formed from the start vertex (any arc subset, out-degrees 1..4 mixed), for "
             "every 0/1 message (empty, all-zero, any length), every permutation table and every check length, encode returns "
             "within L x |V| steps and decode of its output returns the message (normal mode); the same in fast mode without "
             "out-degree 3; plus: whenever encode returns at all, decode inverts it.  Tied to dsw.encode/decode by the "
@@ -53,13 +55,15 @@ CHECKS = {
             "equals its reference; decoding ANY walk returns its value big-endian at the requested width.  Tied to dsw by the "
             "correspondence check and an independent Python reference coder.",
             "Coq proof (refinement to a reference coder over Z) + extraction-based correspondence", "5 C05"),
-    "C06": ("Theorem (both modes): for every accessor of four-column rows with in-range entries, every start vertex, every "
+    "C06": ("(decode and set_vt are REGENERATED from the current source on every run and proved equal to the model, value and "
+            "exception: C06_*_source.)  Theorem (both modes): for every accessor of four-column rows with in-range entries, every start vertex, every "
             "string of arbitrary code points, every table of the right shape and every optional check, decode returns exactly "
             "L bits iff the string is a walk and the check matches, and raises ValueError otherwise (fast mode: under the "
             "stated no-out-degree-3 / carried-bits precondition); tied to dsw.decode by the correspondence check on walks, "
             "edited walks, random and foreign strings, right/wrong checks, permutation and malformed tables.",
             "Coq proof (induction on the strand) + extraction-based correspondence", "5 C06"),
-    "C07": ("Theorems for every strand and every n >= 1: set_vt equals the documented VT function (first symbol = sum mod 4, "
+    "C07": ("(set_vt is REGENERATED from the current source on every run and proved equal to the model: C07_*_source.)  "
+            "Theorems for every strand and every n >= 1: set_vt equals the documented VT function (first symbol = sum mod 4, "
             "then the (n-1)-digit base-4 rendering of the ascent-position sum mod 4^(n-1)), is defined on the empty strand, "
             "changes under every substitution and every C/G/T indel, and decode with the original check rejects; tied to "
             "dsw.set_vt / decode by the correspondence check incl. every single edit of sampled walks.",
